@@ -2,7 +2,7 @@
    Ws = the id-sorted walk (path, prior identity) of any model; tps = its tuple-prior paths; rows = the samples
    handed to Sample.from_lists; fx / drop0 select the pinned code (false / true) or the proposed fixes. *)
 From Coq Require Import List String Bool Arith.
-From PAFC09 Require Import Model Lib Proofs1 Proofs2 Proofs3 Proofs4 Proofs5 Witness.
+From PAFC09 Require Import Model Lib Proofs1 Proofs2 Proofs3 Proofs4 Proofs5 Proofs6 Witness.
 Import ListNotations.
 
 (* every well-formed model tree (distinct "."-free attribute names per node, any nesting, sharing, tuples,
@@ -70,17 +70,62 @@ Theorem C09_best_fit : forall (V : Type) (gtb : V -> V -> bool) (Ws : list (path
   observe tps Ws S1 = Ok o -> observe tps Ws S2 = Ok o -> best_vector gtb tps Ws S1 = best_vector gtb tps Ws S2.
 Proof. exact @same_observed_same_best. Qed.
 
-(* ... and the same value of any statistic of the columns (medians, errors at any sigma) *)
-Theorem C09_statistics : forall (V : Type) (Ws : list (path * nat)) (tps : list path) (A : Type) (stat : observed V -> A)
-                                (S1 S2 : list (sample V)) (o : observed V),
-  observe tps Ws S1 = Ok o -> observe tps Ws S2 = Ok o ->
-  res_bind (observe tps Ws S1) (fun x => Ok (stat x)) = res_bind (observe tps Ws S2) (fun x => Ok (stat x)).
-Proof. exact @same_observed_same_statistic. Qed.
-
 (* the minimised sample list stored by default in the database keeps the best-fit sample *)
 Theorem C09_minimise_keeps_best : forall (V : Type) (add : V -> V -> V) (gtb : V -> V -> bool) (S : list (sample V)) (s : sample V),
   max_ll_sample gtb S = Some s -> In s (minimise add gtb S).
 Proof. exact @minimise_keeps_best. Qed.
+
+(* ---------------------------------------------------------------- the code as it is now (both fixes applied), over model trees *)
+(* every well-formed tree, samples.csv: same value per parameter, log-likelihood, log-prior, weight in order; loading succeeds.
+   Only guards: no top-level parameter named like a reserved column (finding), and -- only for models whose unique paths
+   are all single names -- distinct names (automatic without tuple priors, C09_names_no_tuples) *)
+Theorem C09_tree_csv : forall (V cell : Type) (fmt : V -> cell) (parse : cell -> V) (add : V -> V -> V),
+  (forall v, parse (fmt v) = v) ->
+  forall (t : node) (rows : list (srow V)),
+    wf_root t -> no_reserved (sorted_walk t) ->
+    (all_flat (sorted_walk t) -> names_injective (tuple_paths [] t) (sorted_walk t)) ->
+    rows_ok (sorted_walk t) rows ->
+    res_bind (csv_roundtrip fmt parse add true (tuple_paths [] t) (sorted_walk t) (from_lists true (sorted_walk t) rows))
+             (observe (tuple_paths [] t) (sorted_walk t)) = Ok (expected rows).
+Proof. exact @tree_csv. Qed.
+
+Theorem C09_tree_summary : forall (V cell : Type) (fmt : V -> cell) (parse : cell -> V) (is_zero : V -> bool),
+  (forall v, parse (fmt v) = v) ->
+  forall (t : node) (r : srow V),
+    wf_root t -> (all_flat (sorted_walk t) -> names_injective (tuple_paths [] t) (sorted_walk t)) ->
+    List.length (r_params r) = List.length (pids (sorted_walk t)) ->
+    let s := json_roundtrip fmt parse is_zero true false (from_row true (sorted_walk t) r) in
+    param_list (tuple_paths [] t) (sorted_walk t) s = Ok (r_params r) /\ s_ll s = r_ll r /\ s_lp s = r_lp r /\ s_w s = r_w r.
+Proof. exact @tree_summary. Qed.
+
+(* database rows, every tree, no guard: all samples, the default minimised list, a scraped directory (reloaded samples) *)
+Theorem C09_tree_db : forall (V : Type) (add : V -> V -> V) (t : node) (gtb : V -> V -> bool) (rows : list (srow V)),
+  wf_root t -> rows_ok (sorted_walk t) rows ->
+  let S := from_lists true (sorted_walk t) rows in
+  db_roundtrip true S = Ok S
+  /\ db_roundtrip true (minimise add gtb S) = Ok (minimise add gtb S)
+  /\ db_roundtrip true (map (reloaded (sorted_walk t) true) rows) = Ok (map (reloaded (sorted_walk t) true) rows).
+Proof. exact @tree_db. Qed.
+
+(* EfficientSamples is lossless on any sample list with one shared key list that Sample.__init__ leaves alone *)
+Theorem C09_roundtrip_db_general : forall (V : Type) (fx : bool) (keys : list key) (S : list (sample V)),
+  NoDup keys -> (forall s, In s S -> map fst (s_kw s) = keys) ->
+  (forall vals : list V, List.length vals = List.length keys -> sample_init fx (combine keys vals) = combine keys vals) ->
+  db_roundtrip fx S = Ok S.
+Proof. exact @db_roundtrip_general. Qed.
+
+(* models without tuple priors: distinct priors have distinct names *)
+Theorem C09_names_no_tuples : forall Ws : list (path * nat), shape_ok Ws -> names_injective [] Ws.
+Proof. exact names_injective_no_tuples. Qed.
+
+(* value per path when the reader's model was re-created (same paths and sharing, other prior identities / order):
+   the group of prior j of the reader's model yields the value the row holds for the prior living at the same path *)
+Theorem C09_value_per_path_recreated : forall (V : Type) (Ws : list (path * nat)), shape_ok Ws ->
+  forall (Ws' : list (path * nat)) (vals : list V) (p : path) (i j : nat) (v : V),
+    NoDup (map fst Ws') -> same_sharing Ws Ws' -> List.length vals = List.length (pids Ws) ->
+    In (p, i) Ws -> In (p, j) Ws' -> In (i, v) (combine (pids Ws) vals) ->
+    lookup_group (combine (map KTup (unique_paths Ws)) vals) (map KTup (group j Ws')) = Ok v.
+Proof. exact @value_per_path_recreated. Qed.
 
 Print Assumptions C09_shapes.
 Print Assumptions C09_roundtrip_db.
@@ -88,3 +133,6 @@ Print Assumptions C09_roundtrip_csv_partial.
 Print Assumptions C09_roundtrip_csv_fixed.
 Print Assumptions C09_loadable_refuted.
 Print Assumptions C09_summary_fixed.
+Print Assumptions C09_tree_csv.
+Print Assumptions C09_tree_db.
+Print Assumptions C09_value_per_path_recreated.
